@@ -136,7 +136,7 @@ def run_suite(exe, suite, seed, tier, tag, extra=()):
             os.remove(p)
     rc, out, w1 = sh([exe, suite, "--seed", str(seed), "--tier", tier, "--out", tr, "--stats", st, *extra],
                      timeout=7200)
-    res = {"suite": suite, "harness_rc": rc, "harness_out": out[-2000:], "wall_harness": w1,
+    res = {"suite": suite, "extra": list(extra), "harness_rc": rc, "harness_out": out[-2000:], "wall_harness": w1,
            "transcript": tr, "stats": {}, "samples": [], "mismatches": [], "summary": {}}
     if rc != 0 or not os.path.exists(tr):
         res["error"] = f"harness failed rc={rc}: {out[-500:]}"
@@ -341,6 +341,7 @@ class Check:
                 f"# property {self.prop}: disagreement between /repo and the Lean model/spec",
                 f"# {mm['raw']}",
                 f"# signature {sig}",
+                f"# suite {res['suite']} seed {self.seed} tier {self.tier} extra {' '.join(res.get('extra', []))}",
                 f"# replay: ./check {self.prop} --replay <this file>"] + lines)
             self.violations.append((sig, path, mm["raw"]))
 
